@@ -43,9 +43,9 @@ ASSUMPTIONS = [
     "Repeat intervals are far longer than an execution (no asynchronous re-sends)",
 ]
 
-ALL_KINDS = ('P', 'I', 'C', 'F', 'G', 'Z', 'R', 'X', 'H')
+ALL_KINDS = ('P', 'I', 'C', 'F', 'G', 'Z', 'R', 'X', 'H', 'M')
 INIT_KINDS = ('P', 'Q', 'I', 'J')     # Q, J: no initialisation of their own (by event only)
-ETYPE = {'H': 'tg', 'Q': 'ev', 'J': 'put', 'P': 'ev', 'I': 'put', 'C': 'inc', 'F': 'tg', 'G': 'tg', 'Z': 'tg', 'R': 'rp', 'X': 'put'}
+ETYPE = {'M': 'tg', 'H': 'tg', 'Q': 'ev', 'J': 'put', 'P': 'ev', 'I': 'put', 'C': 'inc', 'F': 'tg', 'G': 'tg', 'Z': 'tg', 'R': 'rp', 'X': 'put'}
 
 
 class Rec(Exception):
@@ -109,7 +109,7 @@ def ext_sequences(kinds, maxlen, variants):
     alpha = []
     for i, k in enumerate(kinds):
         for v in variants:
-            if v == 'missing' and k in 'FGZRCH':
+            if v == 'missing' and k in 'FGZRCHM':
                 continue
             alpha.append((i, v))
     out = []
@@ -211,7 +211,8 @@ class RefNet:
             elif k in 'GZ':
                 self.st[j] = 'c' if self.st[j] == 'a' else 'a'
                 val = self.st[j]
-            elif k == 'H':
+            elif k in 'HM':
+                # (M: the entry action requests TWO chained transitions - 'event multiplication')
                 # the exit action of the intermediate state sends an event to its own FSM: only
                 # the entry action (or a zero timer) may request a chained transition
                 raise Rec(j)
@@ -223,7 +224,7 @@ class RefNet:
                     self.fire(e, val)
             for e in self.out_edges(j, 'every'):
                 self.fire(e, val)
-            if k in 'FGZXH':
+            if k in 'FGZXHM':
                 # X (InputExp): every accepted put re-enters state 'valid'
                 for e in self.out_edges(j, 'enter'):
                     self.fire(e, val)
@@ -304,6 +305,16 @@ class HBadExit(edzed.FSM):
         self.event('tg3')
 
 
+class MTwoRequests(edzed.FSM):
+    """The entry action of the intermediate state requests two chained transitions."""
+    STATES = ['a', 'b', 'c']
+    EVENTS = [['tg', ['a'], 'b'], ['tg2', None, 'c'], ['tg', ['c', 'b'], 'a']]
+
+    def enter_b(self):
+        self.event('tg2')
+        self.event('tg2')
+
+
 class ZChain(edzed.FSM):
     STATES = ['a', 'b', 'c']
     EVENTS = [['tg', ['a'], 'b'], ['tg', ['c'], 'a']]
@@ -370,6 +381,8 @@ def build(cfg, gate):
             blk = (GChain if k == 'G' else ZChain)(names[i], **kw)
         elif k == 'H':
             blk = HBadExit(names[i], **kw)
+        elif k == 'M':
+            blk = MTwoRequests(names[i], **kw)
         elif k == 'X':
             if ens:
                 kw['on_enter_valid'] = ens
@@ -392,7 +405,7 @@ def read_states(kinds, blocks):
             out.append(b.output)
         elif k == 'X':
             out.append(b.output)
-        elif k in 'FGZH':
+        elif k in 'FGZHM':
             out.append(b.state)
         else:
             out.append(0)
